@@ -31,7 +31,7 @@ NF = max(len(t) for t in TABF.values())
 def h_hist2(bi: int, c1: int, c2: int) -> bool:
   """
   pre: 0 <= bi < 4 and 0 <= c1 < N2 and 0 <= c2 < N2
-  pre: (c1 * 4 + bi) % NPART == PART
+  pre: (c1 + c2 + bi) % NPART == PART
   post: _ == True
   """
   vp.enter("h2")
@@ -43,7 +43,7 @@ def h_hist2(bi: int, c1: int, c2: int) -> bool:
 def h_hist2_full(bi: int, c1: int, c2: int) -> bool:
   """
   pre: 0 <= bi < 4 and 0 <= c1 < NF and 0 <= c2 < NF
-  pre: (c1 * 4 + bi) % NPART == PART
+  pre: (c1 + c2 + bi) % NPART == PART
   post: _ == True
   """
   vp.enter("h2f")
